@@ -127,6 +127,11 @@ func (w *Worktree) Add(wt billy.Filesystem, name string, opts ...Option) error {
 	if err == nil {
 		return ErrWorktreeAlreadyExists
 	}
+	// Only "does not exist" means the name is free: after any other error the
+	// worktree may well be there, and going on would overwrite its HEAD.
+	if !errors.Is(err, fs.ErrNotExist) {
+		return err
+	}
 
 	err = w.addDotGitDirs(commonDir, name)
 	if err != nil {
